@@ -271,42 +271,67 @@ def isPtrKind (env : Env) : Ty → Bool
 def isFieldRequired (env : Env) (m : FieldMeta) (t : Ty) : Bool :=
   if isPtrKind env t then false else contains m.validate (s "required")
 
-def applyPart (h : Head) (part0 : B) : Head :=
+/-- what one comma separated part of a `validate` tag does to a schema (the `switch` of
+    applyValidationConstraints) -/
+inductive PartEffect
+  | none
+  | minimum (x : Nat) (exclusive : Bool)
+  | maximum (x : Nat) (exclusive : Bool)
+  | minLength (x : Nat)
+  | maxLength (x : Nat)
+  | len (x : Nat)
+  | enum (vs : List B)
+
+def numEffect (v : B) (f : Nat → PartEffect) : PartEffect :=
+  match parseNat v with
+  | some x => f x
+  | none => .none
+
+def classifyPart (part0 : B) : PartEffect :=
   let part := trimSpace part0
-  if part = [] then h
-  else if hasPrefix (s "min=") part then
-    match parseNat (part.drop 4) with | some x => { h with minimum := some (x, false) } | none => h
-  else if hasPrefix (s "max=") part then
-    match parseNat (part.drop 4) with | some x => { h with maximum := some (x, false) } | none => h
-  else if hasPrefix (s "gte=") part then
-    match parseNat (part.drop 4) with | some x => { h with minimum := some (x, false) } | none => h
-  else if hasPrefix (s "lte=") part then
-    match parseNat (part.drop 4) with | some x => { h with maximum := some (x, false) } | none => h
-  else if hasPrefix (s "gt=") part then
-    match parseNat (part.drop 3) with | some x => { h with minimum := some (x, true) } | none => h
-  else if hasPrefix (s "lt=") part then
-    match parseNat (part.drop 3) with | some x => { h with maximum := some (x, true) } | none => h
+  if part = [] then .none
+  else if hasPrefix (s "min=") part then numEffect (part.drop 4) (.minimum · false)
+  else if hasPrefix (s "max=") part then numEffect (part.drop 4) (.maximum · false)
+  else if hasPrefix (s "gte=") part then numEffect (part.drop 4) (.minimum · false)
+  else if hasPrefix (s "lte=") part then numEffect (part.drop 4) (.maximum · false)
+  else if hasPrefix (s "gt=") part then numEffect (part.drop 3) (.minimum · true)
+  else if hasPrefix (s "lt=") part then numEffect (part.drop 3) (.maximum · true)
   else if hasPrefix (s "minlen=") part || hasPrefix (s "minLength=") part then
-    let v := (cutPrefix (s "minLength=") ((cutPrefix (s "minlen=") part).getD part)).getD ((cutPrefix (s "minlen=") part).getD part)
-    match parseNat v with | some x => { h with minLength := some x } | none => h
+    -- strings.TrimPrefix(strings.TrimPrefix(part, "minlen="), "minLength=")
+    let v1 := (cutPrefix (s "minlen=") part).getD part
+    numEffect ((cutPrefix (s "minLength=") v1).getD v1) .minLength
   else if hasPrefix (s "maxlen=") part || hasPrefix (s "maxLength=") part then
-    let v := (cutPrefix (s "maxLength=") ((cutPrefix (s "maxlen=") part).getD part)).getD ((cutPrefix (s "maxlen=") part).getD part)
-    match parseNat v with | some x => { h with maxLength := some x } | none => h
-  else if hasPrefix (s "len=") part then
-    match parseNat (part.drop 4) with | some x => { h with minLength := some x, maxLength := some x } | none => h
-  else if hasPrefix (s "oneof=") part then
-    { h with enum := fields (part.drop 6) }
-  else h
+    let v1 := (cutPrefix (s "maxlen=") part).getD part
+    numEffect ((cutPrefix (s "maxLength=") v1).getD v1) .maxLength
+  else if hasPrefix (s "len=") part then numEffect (part.drop 4) .len
+  else if hasPrefix (s "oneof=") part then .enum (fields (part.drop 6))
+  else .none
+
+def applyEffect (h : Head) : PartEffect → Head
+  | .none => h
+  | .minimum x e => { h with minimum := some (x, e) }
+  | .maximum x e => { h with maximum := some (x, e) }
+  | .minLength x => { h with minLength := some x }
+  | .maxLength x => { h with maxLength := some x }
+  | .len x => { h with minLength := some x, maxLength := some x }
+  | .enum vs => { h with enum := vs }
+
+def applyPart (h : Head) (part : B) : Head := applyEffect h (classifyPart part)
+
+/-- the format a `validate` tag implies (first `switch` of applyValidationConstraints) -/
+def validateFormat (v : B) : Option B :=
+  if contains v (s "email") then some (s "email")
+  else if contains v (s "url") then some (s "uri")
+  else if contains v (s "uuid") then some (s "uuid")
+  else none
 
 /-- `applyValidationConstraints` on the scalar members -/
 def applyConstraintsHead (v : B) (h : Head) : Head :=
   if v = [] then h
   else
-    let h1 :=
-      if contains v (s "email") then { h with format := s "email" }
-      else if contains v (s "url") then { h with format := s "uri" }
-      else if contains v (s "uuid") then { h with format := s "uuid" }
-      else h
+    let h1 := match validateFormat v with
+      | some f => { h with format := f }
+      | none => h
     let h2 := if contains v (s "alphanum") then { h1 with pattern := s "^[a-zA-Z0-9]+$" } else h1
     (splitOn ',' v).foldl applyPart h2
 
